@@ -183,6 +183,44 @@ func TestC08Threshold(t *testing.T) {
 				}
 				vstat.Case(fmt.Sprintf("%d/%d/%b/%s/%d/%x", n, thr, m, kind, victim, entropy[:6]), true, "negative:"+kind)
 			}
+			// a combination that contains bytes which are no signature at all is refused (or at least does
+			// not verify), and whatever the library keeps between calls must not leak into the next,
+			// valid combination of other shares
+			{
+				garbage := map[int]tbls.Signature{}
+				for i, s := range subSig {
+					garbage[i] = s
+				}
+				var junk tbls.Signature
+				for i := range junk {
+					junk[i] = byte(0xf0 | i)
+				}
+				// iteration order inside the library is its own; put the junk under the highest index so that
+				// valid entries are likely to be read first
+				garbage[idxs[len(idxs)-1]] = junk
+				if gagg, err := tbls.ThresholdAggregate(garbage); err == nil && tbls.Verify(group, msg, gagg) == nil {
+					rt.Fatalf("NEGATIVE ACCEPTED: a combination of %v containing bytes that are no signature verifies under the group key", idxs)
+				}
+				again, err := tbls.ThresholdAggregate(subSig)
+				if err != nil || again != full {
+					rt.Fatalf("AFTER A REFUSED COMBINATION the valid combination of %v no longer gives the undivided key's signature (err=%v)", idxs, err)
+				}
+				// and a combination of the complementary shares (when there are enough of them)
+				var rest map[int]tbls.Signature
+				if n-len(idxs) >= thr {
+					rest = map[int]tbls.Signature{}
+					for i := 1; i <= n; i++ {
+						if _, used := subSig[i]; !used {
+							rest[i] = partials[i]
+						}
+					}
+					r, err := tbls.ThresholdAggregate(rest)
+					if err != nil || r != full {
+						rt.Fatalf("AFTER A REFUSED COMBINATION the combination of the other shares no longer gives the undivided key's signature (err=%v)", err)
+					}
+				}
+				vstat.Case(fmt.Sprintf("%d/%d/%b/garbage_then_valid/%x", n, thr, m, entropy[:6]), true, "negative:garbage_then_valid", cls("garbage_then_disjoint_combination", rest != nil))
+			}
 			// every contributing signature is over the other message: the combination is that message's
 			// signature (positive control) and must not verify for this one, in either order of asking
 			{
